@@ -447,15 +447,17 @@ impl Prop for C06 {
         if extra.chance(1, 8) {
             let text = String::from_utf8_lossy(&input).into_owned();
             let mut col = String::new();
-            for l in text.split_inclusive('\n') {
+            // (what a line is follows from where it stands - render() writes four header lines, the
+            // hunk header, then hunk lines - not from how its text begins: an added line may read `+++ x`)
+            for (li, l) in text.split_inclusive('\n').enumerate() {
                 let body = l.trim_end_matches('\n');
-                if body.starts_with('-') && !body.starts_with("---") {
+                if li >= 5 && body.starts_with('-') {
                     col.push_str(&format!("\x1b[31m{}\x1b[m", body));
-                } else if body.starts_with('+') && !body.starts_with("+++") {
+                } else if li >= 5 && body.starts_with('+') {
                     col.push_str(&format!("\x1b[32m+\x1b[m\x1b[32m{}\x1b[m", &body[1..]));
-                } else if body.starts_with("@@") {
+                } else if li == 4 {
                     col.push_str(&format!("\x1b[36m{}\x1b[m", body));
-                } else if body.starts_with("diff ") || body.starts_with("index ") || body.starts_with("--- ") || body.starts_with("+++ ") {
+                } else if li < 4 {
                     col.push_str(&format!("\x1b[1m{}\x1b[m", body));
                 } else {
                     col.push_str(body);
